@@ -33,7 +33,7 @@ FieldRule == \A size \in 0..(MaxLen + 1) :
    THEN LET raw == BeforeNul(SubSeq(s, 1, size)) IN d.v = "ok" /\ d.consumed = size /\ d.val = SubSeq(raw, 1, LongestValid(raw))
    ELSE d.v = "inc" /\ d.miss = size - Len(s)
 \* the ids of a message obey the same rule
-IdMsg(a, b, c) == <<37, 1, 0, 22>> \o a \o <<64, 1>> \o b \o c \o <<1, 2, 3, 4>>
+IdMsg(a, b, c) == <<37, 1, 0, 22>> \o a \o <<64, 0>> \o b \o c \o <<1, 2, 3, 4>>      \* canonical non-verbose log message (NOAR 0)
 Pad4(q) == SubSeq(q \o <<88, 89, 90, 87>>, 1, 4)
 IdsObeyRule == Len(s) <= 4 =>
    LET id == Pad4(s)  d == ParseVerdict(IdMsg(id, id, id), FALSE)  want == ZStr(id, 4).val IN
